@@ -412,12 +412,17 @@ def derived(chk, thorough):
         key = (tw, hl, hd, w)
         if key not in calcs:
             core.reset_world()
-            dm = m.DragModel(0.3, m.TableG7, U.Grain(w), U.Inch(1) if hd else 0, U.Inch(1) if hl else 0)
-            shot = m.Shot(weapon=m.Weapon(U.Inch(0), twist=U.Inch(tw)), ammo=m.Ammo(dm, U.FPS(2800)),
-                          atmo=m.Atmo(U.Foot(0), U.InHg(29.92), U.Fahrenheit(59), 0.0))
-            c = m.Calculator()
-            c._calc._init_trajectory(shot)
-            calcs[key] = c._calc
+            def build():
+                dm = m.DragModel(0.3, m.TableG7, U.Grain(w), U.Inch(1) if hd else 0, U.Inch(1) if hl else 0)
+                shot = m.Shot(weapon=m.Weapon(U.Inch(0), twist=U.Inch(tw)), ammo=m.Ammo(dm, U.FPS(2800)),
+                              atmo=m.Atmo(U.Foot(0), U.InHg(29.92), U.Fahrenheit(59), 0.0))
+                c = m.Calculator()
+                c._calc._init_trajectory(shot)
+                return c._calc
+            o_ = impl.outcome(build)
+            if o_[0] != "ok":
+                chk.violation("X.Derived.LegalBulletRejected", {"module": "Derived", "tw": tw, "hasLen": hl, "hasDia": hd}, {"weight_gr": w, "exc": o_[1], "text": str(o_[2])[:120]})
+            calcs[key] = o_[1] if o_[0] == "ok" else None
         return calcs[key]
 
     def near(a, b, rel=1e-9):
@@ -426,6 +431,8 @@ def derived(chk, thorough):
     for c in cases:
         want = c["want"]
         tc = solver(c["tw"], c["hasLen"], c["hasDia"], c["w"])
+        if tc is None:
+            continue
         k = {"module": "Derived", "tw": c["tw"], "hasLen": c["hasLen"], "hasDia": c["hasDia"]}
         chk.count(1, ("derived", c["tw"], c["hasLen"], c["hasDia"], c["w"], c["x"], c["y"], c["z"], c["v"], c["snd"], c["t"], c["lookNonZero"]))
         chk.stratum("derived_stable" if want["stable"] else "derived_no_drift")
@@ -474,7 +481,11 @@ def derived(chk, thorough):
     res = {}
     for tw in (12, -12, 0):
         for hl, hd in ((True, True), (False, True), (True, False)):
-            dm = m.DragModel(0.223, m.TableG7, U.Grain(168), U.Inch(0.308) if hd else 0, U.Inch(1.282) if hl else 0)
+            o_ = impl.outcome(m.DragModel, 0.223, m.TableG7, U.Grain(168), U.Inch(0.308) if hd else 0, U.Inch(1.282) if hl else 0)
+            if o_[0] != "ok":
+                chk.violation("X.Derived.LegalBulletRejected", {"module": "Derived", "tw": tw, "hasLen": hl, "hasDia": hd, "fire": True}, {"exc": o_[1], "text": str(o_[2])[:120]})
+                continue
+            dm = o_[1]
             for look in (0.0, 5.0):
                 shot = m.Shot(weapon=m.Weapon(U.Inch(2), twist=U.Inch(tw)), ammo=m.Ammo(dm, U.FPS(2750)), look_angle=U.Degree(look))
                 rows = m.Calculator().fire(shot, U.Yard(300), U.Yard(100)).trajectory
@@ -493,7 +504,7 @@ def derived(chk, thorough):
                         chk.violation("X.Derived.FireDriftSign", k, {"look_deg": look, "distance_ft": r.distance >> U.Foot, "windage_in": wv, "windage_adj": wadj})
                         break
     for (tw, hl, hd, look), w_ in res.items():
-        if tw > 0 and [-x_ for x_ in res[(-tw, hl, hd, look)]] != w_:
+        if tw > 0 and (-tw, hl, hd, look) in res and [-x_ for x_ in res[(-tw, hl, hd, look)]] != w_:
             chk.violation("X.Derived.LeftTwistNotMirror", {"module": "Derived", "tw": tw, "hasLen": hl, "hasDia": hd, "fire": True}, {"look_deg": look, "right": w_, "left": res[(-tw, hl, hd, look)]})
     core.reset_world()
 
